@@ -56,7 +56,15 @@ def parseAct (w : String) : Option Act :=
   | 'u' => some (Act.dropChild n)
   | 't' => some (Act.throw n)
   | 'v' => some (Act.ret n)
+  | 'k' => some (Act.ret n true)      -- `co_return obj` of a const object: the result is copy-constructed
   | _ => none
+
+/-- result type `pk` of the harness (`struct picky` in h_async.cpp): the converting constructor `picky(long v)` throws
+`test_exc(20 + v % 3)` when `v % 4 = 1`, the copy constructor throws `test_exc(30 + v % 3)` when `v % 4 = 2`; the move
+constructor never throws -/
+def pickyExc (copy : Bool) (v : Nat) : Option Nat :=
+  if copy then (if v % 4 == 2 then some (30 + v % 3) else none)
+  else (if v % 4 == 1 then some (20 + v % 3) else none)
 
 def actIds : Act → List Nat
   | Act.awaitChild j _ _ => [j]
@@ -315,6 +323,8 @@ partial def loop (lines : Array String) (i : Nat) (st : Option DState) : IO Unit
         let n := if n > 64 then 0 else n
         if ty == "int" || ty == "void" || ty == "mo" || ty == "ref" then
           loop lines (i+1) (some { s := init (fun _ => []) n, isVoid := ty == "void" })
+        else if ty == "pk" then
+          loop lines (i+1) (some { s := init (fun _ => []) n pickyExc, isVoid := false })
         else
           IO.println "bad-kind"
           loop lines (i+1) none
